@@ -29,6 +29,28 @@ def register(reg):
                      ensures=['self.rc == 65 and self.size == len(v)', 'self.type == t'], canaries=['self.size == 0'], **common), callable_=False)
 
 
+    # ------------------------------------------------------------------ entry block set: even total size
+    # [LIS-79 3.3.2.1]: the entry blocks of a data format specification record, terminator included, take an even number of
+    # bytes: the terminator has size 1 exactly when the other (written) blocks have an odd total, whatever it had before
+    EB = KRec('EntryBlock', type=Int, size=Int, repCode=Int, value=KOpt(Int))
+    EBS = KRec('EntryBlockSet', _ebS=KView(EB))
+    OTHER = ' + '.join('(0 if %d == 10 else self._ebS[%d].size)' % (i, i) for i in range(1, 17))
+    INTEG = ['len(self._ebS) == 17'] + ['self._ebS[%d].type == %d and self._ebS[%d].size >= 0 and (self._ebS[%d].size == 0) == is_none(self._ebS[%d].value)' % (i, i, i, i, i)
+                                         for i in range(17)]
+    INTEG_Q = ('len(self._ebS) == 17 and forall(0, 17, lambda i: self._ebS[i].type == i and self._ebS[i].size >= 0 and '
+               '(self._ebS[i].size == 0) == is_none(self._ebS[i].value))')
+    reg.add(Contract(LR, 'EntryBlockSet._checkIntegrity', {'self': EBS}, returns=Int, ensures=['implies(%s, result == 0)' % INTEG_Q],
+                     loops=[Loop('for (i, eb) in enumerate(self._ebS)', index='k', invariants=[])], canaries=['result == 0'], crosscheck=False))
+    reg.add(Contract(LR, 'EntryBlockSet.lisSize', inline=True))
+    reg.add(Contract(LR, 'EntryBlockSet._setLisSizeEven', {'self': EBS}, requires=[INTEG_Q] + INTEG, modifies=['self._ebS'],
+                     ensures=['len(self._ebS) == 17', 'self._ebS[0].type == 0',
+                              'self._ebS[0].size == (%s) %% 2' % OTHER,
+                              '(self._ebS[0].size + %s) %% 2 == 0' % OTHER,
+                              'forall(1, 17, lambda i: self._ebS[i] == old(self._ebS)[i])',
+                              '(self._ebS[0].size == 0) == is_none(self._ebS[0].value)'],
+                     canaries=['self._ebS[0].size == 0', 'self._ebS[0].size == 1'], crosscheck=False))
+
+
 def standins(tier, seed):
     from pyvc import standin
     n = 150 if tier == 'quick' else 6000
